@@ -117,7 +117,7 @@ def run(ctx):
             w = base_value(expr_operand(f, cs[0][1][2][1]))
             ok = cfg.callee_is(w, re.compile(r"CanonicalFormatter::writer$"))
         ctx.check("sib:%s" % h, ok, "%s delegates to CompactFormatter::%s through the context writer" % (h, h), rules.where(f), fn=f)
-    ctx.floor("sib:wrappers", n, 17, "pass-through hooks")
+    ctx.floor("sib:wrappers", n, 10, "pass-through hooks")
     # writer()
     w = db.one(r"^radicle::canonical::formatter::CanonicalFormatter::writer$")
     if w is None:
